@@ -130,6 +130,46 @@ CHECKS = {
     design_ref='DESIGN.md 5/C16',
     note=('Trusted: Coq kernel, ExtrOcamlBasic, OCaml driver, Python harness incl. the Fraction-based oracle. Not proved: the 17-digit existence theorem and correctness of dec_to_fl (checked on every explored value). The numeric_literal grammar is modelled by hand (ASCII). The extracted float model is evaluated on a CPU-budgeted subset of the floats while every value is judged on the real code.'),
     technique='Rocq proof over hand-written Gallina model + differential correspondence + exact-rational property oracle'),
+ 'C02': dict(
+    category='proof',
+    text=('Two Rocq developments. (1) Constant folder (Models/Fold.v, 22 theorems): faithful model of Expr.fold/BinaryOp.eval/UnaryOp.eval, of the code the generators emit for a constant expression and of its run-time evaluation on the machine model; folding is sound as-is for all INTEGER pairs (16 operators, every value pair, by proof), LONG logical/MOD/comparisons and DOUBLE + - * /; '
+          'refuted with kernel-checked witnesses for 12 defect classes (D01-D04, D32-D34 and new ones); the folder after fixes/C02-fold.diff is proved sound for EVERY constant expression with no guard (induction over expressions with instruction-level lemmas over Cpu.exec); static array bounds agree. '
+          '(2) Peephole pass (Models/Peephole.v, 22 theorems): every output of optimize is a finite sequence of the seven rewrites on windows without labels or markers, markers are preserved, the loop terminates; each rewrite is sound on every machine state or refuted by witness where the compile-time evaluator is wrong. '
+          'Ties on every run: real fold/.type/static bounds and real gen_*+assembler+cpu vs the model on every operator x type pair x boundary value; the real optimize() vs the model on all instruction windows up to a length over a 76-symbol alphabet; model-free oracles: the real cpu on an expression vs on what fold() returned, every changed window executed on the real machine before/after, '
+          'and whole programs (corpus + generated) compiled at levels 0-3 whose acceptance, device events and outcome must equal level 0.'),
+    design_ref='DESIGN.md 5/C02',
+    note=('Trusted: Coq kernel, ExtrOcamlBasic, OCaml driver, Python harnesses. Modelled, not verified: qbee/expr.py fold/eval/type, gen_binary_op & co., QvmCode.optimize. Float ** with non-integer exponents and float // with huge quotients are not modelled (excluded, counted). '
+          'No const_subst theorem (CONST is covered by the level comparison only). The property is false on the unchanged tree in the listed defect classes (KNOWN_FINDINGS).'),
+    technique='Rocq proofs over Gallina models of the folder and the peephole pass + differential correspondence + model-free level/run-time oracles'),
+ 'C06': dict(
+    category='proof',
+    text=('Rocq theorems (9) about an executable model (Models/Tokens.v) of the two arity-assuming grammar parse actions (parse_left_assoc_binary_expr / parse_right_assoc_binary_expr: total exactly on the well-shaped token lists, nesting and in-order results, complete characterisation of the shapes exponent_expr hands over, the `2 ^ -1` crash refuted by witness) '
+          'and of the diagnostic position arithmetic (domain of convert_index_to_line_col and display_with_context), tied to the real functions by exhaustive T-fn suites and a spy on the real grammar. EVERYTHING ELSE of "any text yields a module or a located diagnostic; bytes()/str() succeed" is decided by SEARCH only: a deterministic malformed-input stream '
+          '(170 statement forms x operand faults, token mutations, block keyword skeletons/pairs/triples, expression families, grammar-directed programs, corpus mutations) at 3 levels x 2 debug settings with per-run CPU limits and the direct oracle "only a located qbee SyntaxError/CompileError may escape".'),
+    design_ref='DESIGN.md 5/C06',
+    note=('The pyparsing stage on arbitrary strings, Pass1-3, folding, the code generator, optimize and the assembler are NOT modelled in Gallina (DESIGN 5/C06 says why): for them this check is exploration, not proof. The property is false on the unchanged tree: 31 known findings with witnesses record where. '
+          'Trusted: Coq kernel, extraction, OCaml driver, Python harness (generators, exception-site classification, delta-debugging shrinker).'),
+    technique='small Rocq model + differential T-fn for the parse actions and position arithmetic; seeded deterministic malformed-input search with exception-site signatures for the rest'),
+ 'C01': dict(
+    category='proof',
+    text=('Rocq development: coq/Src/Sem.v is an executable SPECIFICATION of the QBASIC core language (typed values, implicit conversions, all 18 binary operators, builtins, assignment, PRINT, IF, WHILE, DO/LOOP, FOR/STEP, SELECT CASE, EXIT, GOTO, GOSUB/RETURN, procedures with by-reference/by-value arguments and recursion, arrays, records, CONST/SHARED/STATIC/DEFtype, INPUT/READ/RND, error classes with the failing line), '
+          'with the proof that its pure evaluator equals it. Theorems about the code-generator model for pure scalar expressions (Models/ExprCodegen.v) against that specification: for the INTEGER/LONG expression fragment (literals, local variables, unary ops, + - *, six comparisons, AND OR XOR EQV IMP, implicit INTEGER->LONG) the generated code pushes exactly the reference value with the static type, or traps with the matching code; '
+          'the heap changes only by default materialisation and the rest of the state is untouched; stack discipline for every pure expression; result-type lemma for all operators; `\`, MOD and `^` refuted by witness (D06, D32). Everything else of the property is decided by running generated programs (operator x type x boundary-value matrix with operands in variables, a fixed seeded program family, hand-built probes) '
+          'through the REAL compiler at the six configurations and the REAL machine against the EXTRACTED reference interpreter (events, outcome, failing line), with per-defect attribution: a disagreement is a known finding only if the reference with exactly that qbee quirk switched on reproduces the run.'),
+    design_ref='DESIGN.md 5/C01',
+    note=('Trusted: Rocq kernel, extraction, and the reference semantics as the meaning of QBASIC; number text from NumFmt, PRINT layout from Print. Unverified glue: generator, pretty printer, harness. NOT proved: statements, floats, strings, division-like operators, -O1/-O2 and debug equivalences (C02/C08): those are exploration against the extracted specification. '
+          'Not explored: graphics/sound/memory/file statements, ON ERROR (C10), dynamic arrays, array passing, record parameters, corpus programs.'),
+    technique='Rocq proof over a hand-written code-generator and machine model + differential testing of the real pipeline against an extracted executable reference semantics'),
+ 'C05': dict(
+    category='proof',
+    text=('30 closed Rocq theorems. (a) Block assembler (parse_string block stack, Block.create, create_block methods; Models/Blocks.v): it returns a tree iff the statement stream is generated by the block grammar, the parse is unique, the tree flattens back to the stream; every diagnostic is on the line of a statement of the program; each bracket error class '
+          '(terminator without opener, wrong terminator, unclosed block at the innermost opener line, NEXT with the wrong variable) is characterised in both directions; the whole front against the strict grammar holds under an explicit guard with five refutation witnesses (second ELSE, stray CASE, CASE ELSE forms: D28). '
+          '(b) Translator tie: the operator typing decision (BinaryOp.type/UnaryOp.type on all operators x type pairs) and is_coercible_to are REGENERATED from the imported code on every run (coq/Gen/TypeTable.v) and proved to satisfy the declarative typing rule entry by entry (vm_compute over 882 entries). '
+          'All other static-error rules are decided by FAULT ENUMERATION: 64 valid programs x every applicable site x 62 fault kinds against Compiler.compile at the six configurations (never accepted, never an internal exception, expected category, position on the injected line), valid programs with an unrelated statement still accepted, the repository compile-error tests.'),
+    design_ref='DESIGN.md 5/C05',
+    note=('Trusted: Coq kernel, ExtrOcamlBasic, OCaml driver, Python harness including the fault catalogue oracle, gen_c05_tables.py translator. The pyparsing grammar is not modelled; Pass1-3 checks other than the block checks and literal parsing have no theorem (fault enumeration only). '
+          'The thorough tier was not soaked to completion during the build.'),
+    technique='Rocq proof over a hand-written Gallina model and a generated finite table + fault enumeration / differential correspondence against the real compiler'),
 }
 
 ALL = ['C%02d' % i for i in range(1, 21)]
